@@ -254,13 +254,13 @@ def _step(b: Builder, h: str, profile, H: int, force_mapped: bool = False) -> st
         k = D // 2
         a = b.op("slice_last", [h], [B, S, k], lo=0, hi=k)
         c = b.op("slice_last", [h], [B, S, D - k], lo=k, hi=D)
-        return b.op("cat", [c, a], [B, S, D], dim=-1)
+        return b.op("cat", [c, a], [B, S, D], dim=-1, lform=b.rng.choice(["list", "list", "tuple", "kw-list", "kw-tuple"]))
     if choice == "rotate_half":
         k = D // 2
         a = b.op("slice_last", [h], [B, S, k], lo=0, hi=k)
         c = b.op("slice_last", [h], [B, S, D - k], lo=k, hi=D)
         nc = b.op("neg", [c], [B, S, D - k])
-        return b.op("cat", [nc, a], [B, S, D], dim=-1)
+        return b.op("cat", [nc, a], [B, S, D], dim=-1, lform=b.rng.choice(["list", "list", "tuple", "kw-list", "kw-tuple"]))
     if choice == "where_mask":
         m = b.op("gt_scalar", [h], [B, S, D], kind="bool", c=0.0)
         z = b.op("mul_scalar", [h], [B, S, D], c=0.1)
@@ -271,7 +271,7 @@ def _step(b: Builder, h: str, profile, H: int, force_mapped: bool = False) -> st
         return b.op("sub", [h, g], [B, S, D])
     if choice == "stack_mean":
         t = b.op("tanh", [h], [B, S, D])
-        s = b.op("stack", [h, t], [2, B, S, D], dim=0)
+        s = b.op("stack", [h, t], [2, B, S, D], dim=0, lform=b.rng.choice(["list", "list", "tuple", "kw-list", "kw-tuple"]))
         return b.op("mean_dim", [s], [B, S, D], dim=0)
     raise AssertionError(choice)
 
@@ -398,10 +398,11 @@ def emit_op(o: Dict[str, Any]) -> str:
         return f"{out} = {a[0]}.transpose({kw['dims'][0]}, {kw['dims'][1]})"
     if op == "slice_last":
         return f"{out} = {a[0]}[..., {kw['lo']}:{kw['hi']}]"
-    if op == "cat":
-        return f"{out} = torch.cat([{', '.join(a)}], dim={kw['dim']})"
-    if op == "stack":
-        return f"{out} = torch.stack([{', '.join(a)}], dim={kw['dim']})"
+    if op in ("cat", "stack"):
+        # the list of tensors written as a list or a tuple, positionally or by keyword
+        lf = kw.get("lform", "list")
+        seq = ("[" + ", ".join(a) + "]") if lf.endswith("list") else ("(" + ", ".join(a) + ")")
+        return f"{out} = torch.{op}({'tensors=' if lf.startswith('kw') else ''}{seq}, dim={kw['dim']})"
     if op == "mean_dim":
         return f"{out} = {a[0]}.mean(dim={kw['dim']})"
     if op == "gt_scalar":
